@@ -49,6 +49,21 @@ CLAIMS = {
     note=("A fault is an OSError raised instead of performing the call; power-loss effects below the file API (torn "
           "writes, reordering by the OS) are out of scope. Orphan part files after a failed append are allowed."),
     technique="TLA+ spec with fault action + TLC; exhaustive fault injection at every filesystem call; trace validation"),
+ "C07": dict(
+    level="model_checking",
+    text=("Three specifications decide it: SingleFile.tla (append to a simple file: DataIntact as an action property on "
+          "every step, AppendOnly, RowsReadable), Dataset.tla restricted to write/append (ordered ModelContent, "
+          "AppendKeepsFiles, NeverOpensReferenced) and Categorical.tla (per-batch dictionaries: LabelsPreserved holds "
+          "for the remapping variant and is violated by the last-dictionary-wins mechanism the code has). TLC explores "
+          "all append histories within the constants; the exported histories are replayed on real files/directories "
+          "(bytes and inodes of existing files compared around every append; rows compared in order); recorded call "
+          "traces are validated against SingleFileTrace/DatasetTrace; every categorical batch sequence TLC enumerates "
+          "is written with the real writer and read back."),
+    design_ref="DESIGN.md section 5 C07, section 10",
+    note=("Bounds: appends of 0..2 row groups to single files (histories of 2, thorough 3); hive appends over the frame "
+          "sets incl. an 11-row-group dataset; categorical lists {ab, xy, abc, ba}, <= 2 rows per batch, <= 2 (3) batches. "
+          "Known finding KF-C07-1 (categoricals relabelled by the last dictionary) is matched by model prediction."),
+    technique="TLA+ specs + TLC model checking; spec->code history replay; code->spec call-trace validation"),
 }
 
 NOT_BUILT = "not built yet (construction order in DESIGN.md section 9)"
